@@ -1,0 +1,12 @@
+// Copyright Amazon.com, Inc. or its affiliates. All Rights Reserved.
+// SPDX-License-Identifier: Apache-2.0
+
+//go:build !verif
+
+// Package verifhook provides named pause points used by the out-of-tree
+// verification harness. Without the "verif" build tag every function is an
+// empty stub that the compiler inlines away.
+package verifhook
+
+// Point marks a named location between two critical sections.
+func Point(name string) {}
